@@ -2,7 +2,7 @@
 # Runs every registered quick check at the given seeds (default: 1 2 0, the
 # last one leaves the committed evidence at the default seed).  Prints one
 # line per check and seed; exits non-zero if any check did.
-cd /verif
+cd "$(dirname "$0")/.."
 SEEDS="${@:-1 2 0}"
 RC=0
 for s in $SEEDS; do
